@@ -1,6 +1,6 @@
 (* C10 property theorems: statements only, each closed by [exact]. *)
 From Coq Require Import NArith ZArith List Bool.
-From LV Require Import Lib.Bytes Model.C10 Proofs.C10.
+From LV Require Import Lib.Bytes Model.C10 Proofs.C10 Proofs.C10Client Proofs.C10Frag Proofs.C10Time Proofs.C10Honest Proofs.C10Old.
 Import ListNotations.
 Local Open Scope Z_scope.
 
@@ -40,3 +40,179 @@ Theorem C10_server_fragmentation_irrelevant :
        handle_request store q).
 Proof. exact srv_fragmentation. Qed.
 Print Assumptions C10_server_fragmentation_irrelevant.
+
+(* ------------------------------------------------------------------ CLIENT *)
+
+(* FRAGMENTATION.  hdr is an honest header: python-json reads it as response r at its end, it ends in '}', no proper
+   prefix ending in '}' is JSON, and it is not longer than the response cap; r announces (hash, n).  Then for EVERY way
+   of cutting hdr ++ body into segments (empty ones included, body of any length and content) the writer receives
+   exactly body cut at the announced length, the response is delivered exactly once, nothing stays buffered. *)
+Theorem C10_fragmentation_irrelevant :
+  forall (H : bytes -> bytes) (json_loads : bytes -> jres) (hdr : bytes) (r : response) (hash : bytes) (n : Z),
+    json_loads hdr = JResp r ->
+    (exists h0, hdr = h0 ++ [rbrace]) ->
+    (forall a b, hdr = a ++ rbrace :: b -> b <> [] -> json_loads (a ++ [rbrace]) = JInvalid) ->
+    zlen hdr <= MAX_RESPONSE_SIZE ->
+    r_blob r = BrIncoming (Some hash) (LInt n) ->
+    0 < n <= MAX_BLOB_SIZE ->
+    forall (known : option Z) (c0 : client) (body : bytes) (frags : list bytes),
+      Init hash n known c0 ->
+      concat frags = hdr ++ body ->
+      let c := feed H json_loads c0 frags in
+      w_data (c_w c) = firstn (Z.to_nat n) body /\ c_delivered c = 1%nat /\ c_fut c = FutResult r /\
+      c_buf c = [] /\ c_received c = Z.min n (zlen body) /\ c_len c = Some n.
+Proof. exact fragmentation_irrelevant. Qed.
+Print Assumptions C10_fragmentation_irrelevant.
+
+(* HONEST TRANSFER COMPLETES.  If moreover r passes the client's checks, the body has the announced length and hashes
+   to the requested hash, then for every cutting into segments AND every placement of event-loop runs between them,
+   one more loop run ends the download "ok" with the verified byte-identical blob and the connection kept. *)
+Theorem C10_honest_transfer_completes :
+  forall (H : bytes -> bytes) (json_loads : bytes -> jres) (hdr : bytes) (r : response) (hash : bytes) (n : Z) (body : bytes),
+    json_loads hdr = JResp r ->
+    (exists h0, hdr = h0 ++ [rbrace]) ->
+    (forall a b, hdr = a ++ rbrace :: b -> b <> [] -> json_loads (a ++ [rbrace]) = JInvalid) ->
+    zlen hdr <= MAX_RESPONSE_SIZE ->
+    r_blob r = BrIncoming (Some hash) (LInt n) ->
+    0 < n <= MAX_BLOB_SIZE ->
+    acceptable hash (Some n) r = true -> zlen body = n -> H body = hash ->
+    forall (known : option Z) (d0 : Z) (c0 : client) (evs : list event),
+      Start hash n known d0 c0 -> Forall sched_ok evs -> data_of evs = hdr ++ body ->
+      let c := drain (run H json_loads c0 evs) in
+      c_phase c = PhDone (DlOk n) /\ c_verified c = Some body /\ c_received c = n /\ c_open c = true /\
+      w_data (c_w c) = body.
+Proof. exact honest_transfer_completes. Qed.
+Print Assumptions C10_honest_transfer_completes.
+
+(* NEVER POISONED.  For every connection state, every requested (hash, known length >= 0) and EVERY sequence of events
+   (any bytes in any segments, late bytes, loop runs, clock advances, connection loss): if the blob ends up verified,
+   the saved bytes hash to the requested hash, have the blob's length, and are exactly what the writer was handed. *)
+Theorem C10_lying_peer_never_poisons :
+  forall (H : bytes -> bytes) (json_loads : bytes -> jres) (c0 : client) (hash : bytes) (known : option Z)
+         (evs : list event) (d : bytes),
+    match known with Some k => 0 <= k | None => True end ->
+    zlen (c_buf c0) <= MAX_RESPONSE_SIZE ->
+    let c := run H json_loads (request hash known c0) evs in
+    c_verified c = Some d -> H d = hash /\ c_len c = Some (zlen d) /\ d = w_data (c_w c).
+Proof. exact never_poisons. Qed.
+Print Assumptions C10_lying_peer_never_poisons.
+
+(* NEVER OVER LENGTH: the writer is never handed more than the blob's length, nothing without a length. *)
+Theorem C10_never_over_length :
+  forall (H : bytes -> bytes) (json_loads : bytes -> jres) (c0 : client) (hash : bytes) (known : option Z) (evs : list event),
+    match known with Some k => 0 <= k | None => True end ->
+    zlen (c_buf c0) <= MAX_RESPONSE_SIZE ->
+    let c := run H json_loads (request hash known c0) evs in
+    match c_len c with
+    | Some L => zlen (w_data (c_w c)) <= L /\ c_received c <= L
+    | None => w_data (c_w c) = [] /\ c_received c = 0
+    end.
+Proof. exact never_over_length. Qed.
+Print Assumptions C10_never_over_length.
+
+(* RESPONSE CAP: the client never holds more than MAX_RESPONSE_SIZE unrecognised bytes ... *)
+Theorem C10_client_buffer_bounded :
+  forall (H : bytes -> bytes) (json_loads : bytes -> jres) (c0 : client) (hash : bytes) (known : option Z) (evs : list event),
+    match known with Some k => 0 <= k | None => True end ->
+    zlen (c_buf c0) <= MAX_RESPONSE_SIZE ->
+    zlen (c_buf (run H json_loads (request hash known c0) evs)) <= MAX_RESPONSE_SIZE.
+Proof. exact buffer_bounded. Qed.
+Print Assumptions C10_client_buffer_bounded.
+
+(* ... because a segment that brings the unrecognised bytes over the cap closes the connection. *)
+Theorem C10_client_unrecognised_closes :
+  forall (H : bytes -> bytes) (json_loads : bytes -> jres) (c : client) (data : bytes),
+    c_open c = true -> c_att c = true -> c_received c = 0 -> c_fut c = FutPending ->
+    parse_prefix json_loads (c_buf c ++ data) = PNone ->
+    zlen (c_buf c ++ data) > MAX_RESPONSE_SIZE ->
+    data_received H json_loads c data = (close (set_buf (c_buf c ++ data) c), false).
+Proof. exact unrecognised_closes. Qed.
+Print Assumptions C10_client_unrecognised_closes.
+
+(* ... and the scan only ever recognises a response in a '}'-terminated prefix of at most MAX_RESPONSE_SIZE bytes
+   that json_loads accepts. *)
+Theorem C10_parse_prefix_sound :
+  forall (json_loads : bytes -> jres) (msg : bytes) (r : response) (n : nat),
+    parse_prefix json_loads msg = PResp r n ->
+    json_loads (firstn n msg) = JResp r /\ (exists p, firstn n msg = p ++ [rbrace]) /\ Z.of_nat n <= MAX_RESPONSE_SIZE.
+Proof. exact parse_prefix_sound. Qed.
+Print Assumptions C10_parse_prefix_sound.
+
+(* THE CLIENT REFUSES: the checks pass only for availability [hash] (or empty), RATE_ACCEPTED, incoming_blob naming the
+   requested hash and, when the length is known, that length ... *)
+Theorem C10_client_accepts_only_matching :
+  forall (hash : bytes) (known : option Z) (r : response),
+    acceptable hash known r = true ->
+    (r_avail r = AvSingle hash \/ r_avail r = AvFalsy) /\ r_price r = PrAccepted /\
+    exists l, r_blob r = BrIncoming (Some hash) l /\ (known = None \/ exists k, known = Some k /\ l = LInt k).
+Proof. exact acceptable_sound. Qed.
+Print Assumptions C10_client_accepts_only_matching.
+
+(* ... and any response failing them ends the download "closed" at the next loop run: transport closed, writer handle
+   closed, nothing more written. *)
+Theorem C10_client_refuses :
+  forall (c : client) (r : response) (d : Z),
+    c_phase c = PhAwaitResp d -> c_fut c = FutResult r -> c_closed_ev c = false -> c_lost c = false ->
+    acceptable (c_hash c) (c_len c) r = false ->
+    let c' := drain c in
+    c_phase c' = PhDone (DlClosed (c_received c)) /\ c_open c' = false /\ c_att c' = false /\
+    w_closed (c_w c') = (c_has_w c || w_closed (c_w c)) /\ w_data (c_w c') = w_data (c_w c).
+Proof. exact client_refuses. Qed.
+Print Assumptions C10_client_refuses.
+
+(* a response announcing another blob than the requested one is dropped: never delivered, nothing written *)
+Theorem C10_unrequested_blob_dropped :
+  forall (H : bytes -> bytes) (json_loads : bytes -> jres) (c : client) (data : bytes) (r : response) (n : nat)
+         (h : option bytes) (l : lenv),
+    c_open c = true -> c_att c = true -> c_received c = 0 -> c_fut c = FutPending ->
+    parse_prefix json_loads (c_buf c ++ data) = PResp r n -> r_blob r = BrIncoming h l -> h <> Some (c_hash c) ->
+    data_received H json_loads c data = (set_buf [] c, false).
+Proof. exact unrequested_blob_dropped. Qed.
+Print Assumptions C10_unrequested_blob_dropped.
+
+(* TIMEOUTS.  Whatever the peer sends or withholds and however the loop is scheduled: once two peer timeouts of
+   (virtual) time have elapsed since the request, the download has ended. *)
+Theorem C10_client_bounded_wait :
+  forall (H : bytes -> bytes) (json_loads : bytes -> jres) (c0 : client) (hash : bytes) (known : option Z) (evs : list event),
+    0 < c_T c0 -> 2 * c_T c0 <= elapsed evs ->
+    exists res, c_phase (run H json_loads (request hash known c0) evs) = PhDone res.
+Proof. exact bounded_wait. Qed.
+Print Assumptions C10_client_bounded_wait.
+
+(* THE REPAIRED DEFECT (F7).  With the condition used before the fix, a blob that begins with something that reads as
+   a response (no incoming_blob), delivered as header | body, is never written: the connection is force-closed. *)
+Theorem C10_old_condition_refuted :
+  forall (H : bytes -> bytes) (json_loads : bytes -> jres) (hdr : bytes) (r : response) (hash : bytes) (n : Z),
+    json_loads hdr = JResp r ->
+    (exists h0, hdr = h0 ++ [rbrace]) ->
+    (forall a b, hdr = a ++ rbrace :: b -> b <> [] -> json_loads (a ++ [rbrace]) = JInvalid) ->
+    zlen hdr <= MAX_RESPONSE_SIZE ->
+    r_blob r = BrIncoming (Some hash) (LInt n) -> 0 < n <= MAX_BLOB_SIZE ->
+    forall (body : bytes) (r' : response) (k : nat),
+      parse_prefix json_loads body = PResp r' k -> r_blob r' = BrAbsent ->
+      forall (known : option Z) (c0 : client), Init hash n known c0 ->
+        let c := run_old H json_loads c0 [EvData hdr; EvData body] in
+        c_open c = false /\ c_lost c = true /\ w_data (c_w c) = [] /\ c_received c = 0.
+Proof. exact old_condition_refuted. Qed.
+Print Assumptions C10_old_condition_refuted.
+
+(* ------------------------------------------------------------------ non-vacuity *)
+(* all hypotheses about an honest header and a started download are satisfiable together (a table-driven json_loads,
+   the literal F7 witness {"lbrycrd_address": "x"} as the blob): the old client fails on it, the repaired one completes *)
+Example C10_ex_old_fails :
+  let c := run_old toy_H toy_json toy_c0 [EvData T_HDR; EvData T_WIT] in
+  c_open c = false /\ c_lost c = true /\ w_data (c_w c) = [] /\ c_received c = 0.
+Proof. exact old_condition_refuted_instance. Qed.
+Example C10_ex_repaired_completes :
+  let c := drain (run toy_H toy_json toy_c0 [EvData T_HDR; EvDrain; EvData T_WIT]) in
+  c_phase c = PhDone (DlOk 24) /\ c_verified c = Some T_WIT /\ c_received c = 24 /\ c_open c = true /\
+  w_data (c_w c) = T_WIT.
+Proof. exact repaired_completes_instance. Qed.
+(* a lying peer: one corrupted byte -> hash mismatch -> closed, not verified (toy hash = constant, so use a wrong length) *)
+Example C10_ex_timeout :
+  c_phase (run toy_H toy_json toy_c0 [EvAdvance 3]) = PhDone (DlClosed 0).
+Proof. vm_compute. reflexivity. Qed.
+Example C10_ex_server_cap :
+  srv_data (fun _ => RBadJson) (fun _ => None) (mkS (repeat rbrace 1000) true) (repeat rbrace 200)
+  = (mkS (repeat rbrace 1000) false, [SClose]).
+Proof. vm_compute. reflexivity. Qed.
